@@ -33,7 +33,7 @@ var c18OddKeys = []string{"a b", "é", "日本", "", "k\"q", "k\\s", "1x", "a.b"
 
 var c18Strings = []string{"", "x", "hello world", "true", "false", "null", "123", "-1", "1e5", "1.5", "a:b", "[x]", "{y}", "{", "}", "[", "]", ",",
 	"//c", "#h", "'q'", "\"dq\"", " lead", "trail ", "tab\there", "nl\nhere", "cr\rhere", "back\\slash", "sl/ash", "\x01\x02", "\x1f", "\x7f",
-	"é", "ß∂ƒ", "日本語", "😀", "a😀b", " ", "\ufeff", "<tag>&amp;", "@2024-01-02T03:04:05Z", "2024-01-02", "$", "@", "*", "..", "nil", "t", ":false"}
+	"é", "ß∂ƒ", "日本語", "😀", "a😀b", " ", "\ufeff", "<tag>&amp;", "@2024-01-02T03:04:05Z", "2024-01-02", "2024-01-02T03:04:05Z", "2024-02-29", "2024-01-02T03:04:05.123456789+02:00", "$", "@", "*", "..", "nil", "t", ":false"}
 
 func (g *c18Gen) pick(xs []string) string { return xs[g.r.Intn(len(xs))] }
 
@@ -78,7 +78,7 @@ func (g *c18Gen) str1() string {
 	return string(rs)
 }
 
-var c18IntBounds = []string{"0", "1", "-1", "2147483647", "2147483648", "-2147483649", "4294967296", "9007199254740993",
+var c18IntBounds = []string{"1500000000000000000", "946684800000000000", "1700000000123456789", "0", "1", "-1", "2147483647", "2147483648", "-2147483649", "4294967296", "9007199254740993",
 	"922337203685477579", "-922337203685477579"}
 var c18BigInts = []string{"922337203685477580", "922337203685477581", "-922337203685477580", "9223372036854775807", "-9223372036854775808",
 	"9223372036854775808", "-9223372036854775809", "18446744073709551615", "18446744073709551616",
@@ -120,7 +120,7 @@ func (g *c18Gen) float() *jv {
 		case 1:
 			f = math.Float64frombits(g.r.U64())
 		case 2:
-			f = []float64{0.1, -0.1, 1.5, 1e-300, 1.7976931348623157e308, 5e-324, 2.2250738585072014e-308, 3.141592653589793, 1e21, 1e22, 123456.789e3, -2.5e-7, 0.30000000000000004}[g.r.Intn(13)]
+			f = []float64{1500000000.5, 946684800.5, 1.7e9 + 0.25, 2524607999.5, 0.1, -0.1, 1.5, 1e-300, 1.7976931348623157e308, 5e-324, 2.2250738585072014e-308, 3.141592653589793, 1e21, 1e22, 123456.789e3, -2.5e-7, 0.30000000000000004}[g.r.Intn(17)]
 		case 3:
 			f = float64(g.r.Intn(1000)) // integral
 		default:
